@@ -307,4 +307,42 @@ PROPS = {
         "require_strata": {"both": ["history:query", "schedule:trial-with-contended-miss", "schedule:trial-with-lost-race"]},
         "min_evals": {"quick": 100_000, "thorough": 2_000_000},
     },
+    "C06": {
+        "quick": [phase(16, 1.0, 90)],
+        "thorough": [phase(16, 1.0, 1500)],
+        "exhaustive": True,
+        "rule": ("exhaustive: every bundled zone with an unambiguous city name (554) x every UTC-offset transition of that zone in "
+                 "1980-2060 (day-step scan + bisection through chrono-tz) x the instants t-1s, t, t+1s, the middle and the far edge of "
+                 "the repeated / skipped local hour on both sides, the last nanosecond before t x fraction digits (all of 0-9 in "
+                 "thorough, 2 settings per instant in quick), plus four fixed probes per zone; each through "
+                 "parse_from_rfc3339_with_timezone (city and IANA name; text at the zone's offset and at UTC), Zinc text written by the "
+                 "harness, Zinc and Hayson round trips of the library's value, Hayson documents written by the harness: same UTC "
+                 "instant, same local offset, same zone name. Local times inside a skipped hour written with the old offset must be "
+                 "rejected or denote that instant. Offsets: every RFC 3339 offset from -12:00 to +14:00 in 15-minute steps x 50 instants "
+                 "x fraction digits through parse_from_rfc3339 / make_datetime_from_iso / FromStr / Hayson without tz: Err or exactly "
+                 "the instant the text denotes"),
+        "assumptions": ["chrono-tz is the trusted zone database (the property is about libhaystack not losing what it knows)",
+                        "zones whose city name is shared with another zone are outside the model (Appendix C)",
+                        "exhaustive refers to zones x transitions x listed instants; instants between transitions are covered by C01/C02 sampling"],
+        "require_strata": {"both": ["zone", "transition:fall-back", "transition:spring-forward", "transition:last-nanosecond",
+                                    "transition:skipped-hour-old-offset", "offset-sweep", "utc"]},
+        "min_evals": {"quick": 200_000, "thorough": 1_000_000},
+    },
+    "C11": {
+        "quick": [phase(16, 1.0, 120)],
+        "thorough": [phase(16, 1.0, 1800)],
+        "rule": ("(1) fixed point: for every text a decoder accepts - grammar-generated Zinc with random spellings, the shipped corpus "
+                 "files whole and in slices, accepted mutants of both, the library's Hayson for generated values and accepted mutants of "
+                 "it, benches/json/points.json - decode, encode, decode again and compare the two decoded values in the strict model; "
+                 "(2) stream = buffer: the same text through Parser::make(reader).parse_value over the reader family (chunks of "
+                 "1/2/7/random/whole, Interrupted on every other call) must give the value (or the rejection) from_str gives, and the lazy "
+                 "row iterator the rows parse_grid gives, in order; (3) laziness: generated grids with rows >= 64 bytes read one byte at a "
+                 "time through a counting reader: when row i is handed out the reader has been asked for no more than the end of row i + "
+                 "the first token of row i+1 + 16 bytes of lexer look-ahead. distinct = distinct accepted texts"),
+        "assumptions": ["the grid's 'ver' field (version of the text it was read from) is not part of the value", 
+                        "the 16-byte look-ahead slack: the scanner holds one byte, the number/date splitter peeks up to 9 (observed maximum reported)"],
+        "require_strata": {"both": ["zinc:grammar:accepted", "zinc:mutant:accepted", "zinc:corpus:accepted", "hayson:hayson:accepted", "hayson:mutant:accepted",
+                                    "stream-vs-buffer", "lazy-vs-eager", "laziness", "reader:One", "reader:Random"]},
+        "min_evals": {"quick": 200_000, "thorough": 5_000_000},
+    },
 }
